@@ -50,6 +50,12 @@ def _tx_key(eng, x, st):
 
 # level / notes per property; functions and lemmas come from the props tags on the contracts
 PROPS = {
+    'C18': dict(level='proof', native=['native.c18'],
+                explanation="post-condition of validate_block_in_coinstate verified from source: at or below the horizon, at "
+                            "a checkpointed height, it returns only for the checkpointed id (table pinned as consensus "
+                            "data; horizon = highest checkpoint; entry 0 = genesis id); the built-in genesis block and the "
+                            "recorded blocks are re-validated completely with the real scrypt on every run (exhaustive over "
+                            "the recorded data, reported under `bounded`)"),
     'C06': dict(level='proof', native=['native.c06'],
                 explanation="lemmas over the verified validator / evidence / codec contracts: two blocks accepted by full "
                             "validation on the same chain with the same header have the same encoding (the evidence commits "
